@@ -88,6 +88,13 @@ def make_frac(rng, d, N, kind):
         k = int(rng.integers(1, 4))
         centres = rng.random((k, d))
         f = (centres[rng.integers(0, k, N)] + rng.normal(0, 0.06, (N, d))) % 1.0
+    elif kind == "droplets":
+        # compact droplets with a dilute vapour between them: local density far from the mean density
+        nv = max(3, N // 8)
+        k = int(rng.integers(2, 5))
+        centres = rng.random((k, d))
+        f = np.vstack([(centres[rng.integers(0, k, N - nv)] + rng.normal(0, 0.025, (N - nv, d))) % 1.0, rng.random((nv, d))])
+        f = f[rng.permutation(N)]
     elif kind == "hardcore":
         f = np.empty((0, d))
         rmin = 0.6 / N ** (1.0 / d)
@@ -229,7 +236,7 @@ def retilt(rng, cell):
 
 
 def static_system(rng, d=None, N=None, K=1, cellkind=None, poskind=None, frames=1, nmin=2, nmax=60, jitter=0.03, retype=False,
-                  vary_tilt=False, layout=None, big=False):
+                  vary_tilt=False, layout=None, big=False, vary_box=False):
     """one random multi-frame static system; returns (Snapshots, info).
     vary_tilt: for a triclinic cell and several frames, 40 % of the systems get an own tilt per frame (equal edge lengths, as the
     analyses require); info["Hs"] then lists the cell matrix of every frame."""
@@ -250,6 +257,15 @@ def static_system(rng, d=None, N=None, K=1, cellkind=None, poskind=None, frames=
     layout = layout or str(np.random.default_rng([int(f0.shape[0]), int(types.sum()), int(f0[0, 0] * 1e9)]).choice(LAYOUTS))
     shear = bool(vary_tilt and frames > 1 and cellkind.startswith("tri") and cellkind != "tri0" and rng.random() < 0.4)
     cells = [cell] + [retilt(rng, cell) if shear else cell for _ in range(frames - 1)]
+    if vary_box and frames > 1 and not shear and int(f0[0, 0] * 1e6) % 3 == 0:
+        # constant-pressure run: every frame has its own edge lengths (tilt factors scale along), same fractional coordinates
+        cells = [cell]
+        for t in range(1, frames):
+            c = dict(cell)
+            fac = 1.0 + 0.25 * np.sin(1.7 * t + f0[0, 0] * 10.0)
+            c["H"], c["L"] = cell["H"] * fac, cell["L"] * fac
+            c["tilt"] = tuple(v * fac for v in cell["tilt"])
+            cells.append(c)
     for t in range(frames):
         f = (f0 + (rng.normal(0, jitter, f0.shape) if t else 0.0)) % 1.0
         tt = types if (t == 0 or not retype) else types[rng.permutation(N)]   # swap moves: same composition, other ids
